@@ -3,7 +3,7 @@
    what that property's statements need, so that a change which breaks one property's proof leaves the
    others' theorems checkable. *)
 From NTRIP Require Import Base Html Net.
-From NTRIP Require Relay RelayLocal.
+From NTRIP Require Relay RelayLocal RelayPrefix.
 
 (* ===================== C19 (report part) ===================== *)
 (* Every traffic-derived part of the status page (both buffer dumps and the message list) is
@@ -61,5 +61,18 @@ Theorem C19_relay_prefix_always :
   exists done rest, chunks = (done ++ rest)%list /\ Relay.server_writes B M FS c = map (Relay.EvW B M) done.
 Proof. exact RelayLocal.relay_prefix_always. Qed.
 Print Assumptions C19_relay_prefix_always.
+
+(* ... and the queue (what the status report lists) has been given a prefix of the messages that sequential framing finds
+   in the client's bytes: at no moment does it hold anything that is not relayed traffic, in order. *)
+Theorem C19_queue_prefix_always :
+  forall (B M FS : Type) (fstep : FS -> B -> FS * list M) (sync : nat -> bool) cap0 cap1 (chunks : list (list B)) (s0 : FS),
+  (1 <= cap0)%nat -> (1 <= cap1)%nat ->
+  forall m c,
+    steps _ (nstep _ _ _ (Relay.prog B M FS fstep sync) Relay.sender Relay.receiver (Relay.QDead B M FS)) m
+          (Relay.init B M FS cap0 cap1 chunks s0) c ->
+    exists rest, map (Relay.EvQ B M) (fst (Relay.frun B M FS fstep s0 (concat chunks))) = (Relay.queue_adds B M FS c ++ rest)%list.
+Proof. exact RelayPrefix.relay_queue_prefix_always. Qed.
+Print Assumptions C19_queue_prefix_always.
+
 
 
